@@ -66,10 +66,23 @@ def compare(chk, model, hscan, items, kind):
             if s_.startswith("exception") or s_.startswith("unknown"):
                 chk.violation("model:" + kind, "model runner failed: %s" % s_[:200], {"rule": src, "sexp": sexp}, found_input=False)
                 continue
+            partial = set()          # offsets where only some of the admissible lengths pass a filter (fullword): not demanded, not forbidden
             for ent in s_.split(";"):
                 if ent:
                     o, ls = ent.split(":")
-                    sp[int(o)] = [int(x) for x in ls.split(",")]
+                    if ls.endswith("!"):
+                        partial.add(int(o))
+                        ls = ls[:-1]
+                    sp[int(o)] = [int(x) for x in ls.split(",") if x]
+            if partial:
+                chk.add("offsets_with_partly_filtered_lengths", len(partial))
+                impl_all = impl
+                impl = [e for e in impl if e[0] not in partial]
+                for e in impl_all:
+                    if e[0] in partial and e[1] not in sp[e[0]]:
+                        impl = impl + [e]       # reported with a length that does not pass the filter: still wrong
+                impl.sort()
+                sp = {o: ls for o, ls in sp.items() if o not in partial or any(e[0] == o for e in impl)}
             io = [e[0] for e in impl]
             replay = {"rule": src, "buffer_hex": hx(b), "impl": impl, "spec": s_, "meta": meta,
                       "how": "h_scan: newcompiler; add <rule>; getrules; scanner 0; scan <buffer_hex>"}
